@@ -1,3 +1,169 @@
-(* stub - replaced below *)
-From SygmaV Require Import Model.C01.
-Theorem C01_stub : True. Proof. exact I. Qed.
+(* C01 - The relayed proposal carries the deposit's identity and payload unaltered.
+   Only the property theorems (each closed by [exact]) and Print Assumptions.
+
+   [relay sk dk d] = the source-side deposit handler of kind sk (as coded, Model/C01.v) composed with
+   the destination-side message handler of kind dk.  [wf sk dk d] = the deposit satisfies the wire
+   format of its handler (boolean, evaluated on the bytes).  [spec_proposal sk dk d] = the
+   reference: the deposit's own envelope and bytes with only the three documented rewrites. *)
+From Coq Require Import List NArith ZArith Bool.
+From Coq.Strings Require Import Byte.
+Import ListNotations.
+From SygmaV Require Import Lib.C01_Bytes Model.C01 Proofs.C01.
+
+(* Master statement: for EVERY well-formed deposit of every handler pair that prepares a proposal
+   (all amounts in [0,2^256), all recipient lengths, absent/present optional message, absent/present
+   handler response, all ERC1155 vectors, all generic call parts, all nonces / resource ids /
+   domains) the relay prepares exactly the reference proposal. *)
+Theorem C01_relay_spec : forall sk dk d, wf sk dk d = true -> relay sk dk d = Ok (spec_proposal sk dk d).
+Proof. exact relay_spec. Qed.
+Print Assumptions C01_relay_spec.
+
+(* The envelope is copied for ALL inputs (well-formed or not) whenever a proposal is prepared. *)
+Theorem C01_relay_envelope : forall sk dk d p, relay sk dk d = Ok p ->
+  p_src p = d_src d /\ p_nonce p = d_nonce d /\ p_rid p = d_rid d /\ (sk <> SBtc -> p_dst p = d_dst d).
+Proof. exact relay_envelope. Qed.
+Print Assumptions C01_relay_envelope.
+
+(* ERC20 / native: the calldata with rewrite 1 (handler-reported amount) and rewrite 2 (fee limit of
+   the optional message + OPTIONAL_REVERT_GAS = 100000), and the gasLimit metadata. *)
+Theorem C01_erc20_relay_data : forall d, wf_erc20 d = true ->
+  exists p, relay SErc20 DEvm d = Ok p /\ p_data p = DBytes (spec_erc20_data d) /\ p_gas p = spec_erc20_gas d.
+Proof. exact erc20_relay_data. Qed.
+Print Assumptions C01_erc20_relay_data.
+
+(* ... the reference spelled out: amount32 ++ recipientLen32 ++ recipient [++ u256(fee+100000) ++ message] *)
+Theorem C01_erc20_spec_explicit : forall src dst nonce rid am A W R F M hr amt,
+  length A = 32%nat -> length W = 32%nat -> be_to_N W = N.of_nat (length R) -> hr_amount A hr amt ->
+  length F = 32%nat -> M <> [] ->
+  spec_erc20_data (mkDep src dst nonce rid (A ++ W ++ R ++ []) hr am) = amt ++ W ++ R /\
+  spec_erc20_data (mkDep src dst nonce rid (A ++ W ++ R ++ F ++ M) hr am)
+    = amt ++ W ++ R ++ u256 (be_to_N F + OPTIONAL_REVERT_GAS) ++ M.
+Proof. exact erc20_spec_explicit. Qed.
+Print Assumptions C01_erc20_spec_explicit.
+
+Theorem C01_erc721_roundtrip : forall d, wf_erc721 d = true ->
+  exists p, relay SErc721 DEvm d = Ok p /\ p_data p = DBytes (d_data d) /\ p_gas p = None.
+Proof. exact erc721_roundtrip. Qed.
+Print Assumptions C01_erc721_roundtrip.
+
+Theorem C01_generic_roundtrip : forall d, wf_generic d = true ->
+  exists p, relay SGeneric DEvm d = Ok p /\ p_data p = DBytes (d_data d) /\
+            p_gas p = Some (word_at 0 (d_data d) mod 2 ^ 64)%N.
+Proof. exact generic_roundtrip. Qed.
+Print Assumptions C01_generic_roundtrip.
+
+(* ERC1155, full ABI round trip: for ALL id / amount vectors (< 2^32 entries, entries < 2^256), every
+   20-byte recipient and every transferData (< 2^32 bytes) the decoder (go-ethereum's UnpackValues as
+   modelled) inverts the encoder, and the relayed proposal data is the canonical encoding itself. *)
+Theorem C01_erc1155_decode_encode : forall src dst nonce rid hr am ids ams rc td,
+  wf_erc1155_parts ids ams rc td = true ->
+  erc1155_decode (mkDep src dst nonce rid (abi_encode ids ams rc td) hr am) =
+  Ok (mkMsg src dst nonce rid SemiFungible [PI ids; PI ams; PB rc; PB td] None).
+Proof. exact erc1155_roundtrip_decode. Qed.
+Print Assumptions C01_erc1155_decode_encode.
+
+Theorem C01_erc1155_roundtrip : forall src dst nonce rid hr am ids ams rc td,
+  wf_erc1155_parts ids ams rc td = true ->
+  relay SErc1155 DEvm (mkDep src dst nonce rid (abi_encode ids ams rc td) hr am) =
+  Ok (mkProp src dst nonce rid None (DBytes (abi_encode ids ams rc td))).
+Proof. exact erc1155_roundtrip. Qed.
+Print Assumptions C01_erc1155_roundtrip.
+
+Theorem C01_substrate_relay_data : forall d dk, wf_sub d = true -> dk <> DBtcK ->
+  exists p, relay SSub dk d = Ok p /\ p_data p = DBytes (d_data d).
+Proof. exact substrate_relay_data. Qed.
+Print Assumptions C01_substrate_relay_data.
+
+(* rewrite 3, source side: amount' = satoshi * 10^10, 20-byte recipient, destination from the payload *)
+Theorem C01_btc_source_scaled : forall d, wf_btc d = true ->
+  exists p addr, relay SBtc DEvm d = Ok p /\ length addr = 20%nat /\
+    p_data p = DBytes (u256 (d_amount d * BTC_SCALE) ++ u256 20 ++ addr) /\
+    be_to_N (u256 (d_amount d * BTC_SCALE)) = (d_amount d * BTC_SCALE)%N /\
+    p_dst p = dec_value (btc_dom_part d).
+Proof. exact btc_source_scaled. Qed.
+Print Assumptions C01_btc_source_scaled.
+
+(* rewrite 3, destination side: amount' = a / 10^10 for a < 2^64 * 10^10 (part of wf _ DBtcK) *)
+Theorem C01_btc_dest_scaled : forall sk d, wf sk DBtcK d = true ->
+  exists p, relay sk DBtcK d = Ok p /\
+    p_data p = DBtc (be_to_N (firstn 32 (spec_fungible_data sk d)) / BTC_SCALE) (skipn 64 (spec_fungible_data sk d)).
+Proof. exact btc_dest_scaled. Qed.
+Print Assumptions C01_btc_dest_scaled.
+
+Theorem C01_gas_limit_meta : forall sk dk d p,
+  wf sk dk d = true -> relay sk dk d = Ok p -> p_gas p = spec_gas sk dk d.
+Proof. exact gas_limit_meta. Qed.
+Print Assumptions C01_gas_limit_meta.
+
+(* The judge used on the implementation's observations accepts the model on every input, and what it
+   accepts on a well-formed deposit is exactly the reference proposal. *)
+Theorem C01_spec_ok_model : forall sk dk d, spec_ok sk dk d (relay sk dk d) = true.
+Proof. exact spec_ok_model. Qed.
+Print Assumptions C01_spec_ok_model.
+
+Theorem C01_spec_ok_sound : forall sk dk d impl,
+  spec_ok sk dk d impl = true -> wf sk dk d = true -> impl = Ok (spec_proposal sk dk d).
+Proof. exact spec_ok_sound. Qed.
+Print Assumptions C01_spec_ok_sound.
+
+(* Shared byte library: the laws the encoders rest on. *)
+Theorem C01_be_to_N_be_bytes : forall n, be_to_N (be_bytes n) = n.
+Proof. exact be_to_N_be_bytes. Qed.
+Print Assumptions C01_be_to_N_be_bytes.
+
+Theorem C01_be_to_N_left_pad : forall k l, be_to_N (left_pad k l) = be_to_N l.
+Proof. exact be_to_N_left_pad. Qed.
+Print Assumptions C01_be_to_N_left_pad.
+
+Theorem C01_left_pad_word : forall w, left_pad (length w) (be_bytes (be_to_N w)) = w.
+Proof. exact left_pad_be_bytes_word. Qed.
+Print Assumptions C01_left_pad_word.
+
+Theorem C01_length_be_bytes_le : forall n k, (n < 256 ^ N.of_nat k)%N -> (length (be_bytes n) <= k)%nat.
+Proof. exact length_be_bytes_le. Qed.
+Print Assumptions C01_length_be_bytes_le.
+
+(* ---- non-vacuity and the documented preconditions ------------------------------------------------------------------ *)
+Definition hxN (l : list N) : bytes := bytes_of_Ns l.
+Definition zeros (n : nat) : bytes := repeat x00 n.
+Definition ex_rid : bytes := repeat x01 32.
+
+(* amount 5, 20-byte recipient, optional message with fee 7 and a 3-byte body, handler response amount 9 *)
+Definition ex_erc20 : deposit :=
+  mkDep 1 2 77 ex_rid
+    (u256 5 ++ u256 20 ++ repeat x02 20 ++ u256 7 ++ [x0a; x0b; x0c]) (u256 9) 0.
+Definition ex_erc721 : deposit :=
+  mkDep 1 2 78 ex_rid (u256 5 ++ u256 20 ++ repeat x02 20 ++ u256 3 ++ [x0a; x0b; x0c]) [] 0.
+Definition ex_generic : deposit :=
+  mkDep 1 2 79 ex_rid (u256 300000 ++ [x00; x04] ++ repeat x03 4 ++ [x14] ++ repeat x04 20 ++ [x14] ++ repeat x05 20 ++ repeat x06 36) [] 0.
+Definition ex_erc1155 : deposit :=
+  mkDep 1 2 80 ex_rid (abi_encode [1; 2 ^ 255]%N [10; 20]%N (repeat x02 20) [x0a]) [] 0.
+Definition ex_sub : deposit := mkDep 3 2 81 ex_rid (u256 5 ++ u256 32 ++ repeat x02 32) [] 0.
+Definition ex_btc : deposit :=
+  mkDep 4 0 82 ex_rid (hxN [48; 120]%N ++ repeat "a"%byte 40 ++ hxN [95; 50; 53; 53]%N) [] 123456789.
+
+Example C01_nonvacuous :
+  wf SErc20 DEvm ex_erc20 = true /\ wf SErc721 DEvm ex_erc721 = true /\ wf SGeneric DEvm ex_generic = true /\
+  wf SErc1155 DEvm ex_erc1155 = true /\ wf SSub DEvm ex_sub = true /\ wf SSub DBtcK ex_sub = true /\
+  wf SBtc DEvm ex_btc = true /\ wf SBtc DBtcK ex_btc = true /\
+  (exists p, relay SErc20 DEvm ex_erc20 = Ok p /\
+             p_data p = DBytes (u256 9 ++ u256 20 ++ repeat x02 20 ++ u256 100007 ++ [x0a; x0b; x0c]) /\
+             p_gas p = Some 100007%N) /\
+  (exists p, relay SBtc DEvm ex_btc = Ok p /\ p_dst p = 255%N /\
+             p_data p = DBytes (u256 1234567890000000000 ++ u256 20 ++ repeat xaa 20)).
+Proof. vm_compute. repeat split; eexists; repeat split. Qed.
+
+(* Outside wf (documented preconditions, not findings): a fee word above 2^256 - 100001 does not
+   survive the 32-byte copy (fee = 2^256 - 100000: the sum 2^256 has 33 bytes, its first 32 are copied), and a BTC-bound amount of 2^64 * 10^10 or more wraps modulo 2^64. *)
+Example C01_fee_overflow_outside_wf :
+  let d := mkDep 1 2 1 ex_rid (u256 5 ++ u256 20 ++ repeat x02 20 ++ u256 (2 ^ 256 - 100000) ++ [x0a]) [] 0 in
+  wf SErc20 DEvm d = false /\
+  exists p, relay SErc20 DEvm d = Ok p /\
+            p_data p = DBytes (u256 5 ++ u256 20 ++ repeat x02 20 ++ (x01 :: repeat x00 31) ++ [x0a]).
+Proof. vm_compute. split; [reflexivity | eexists; split; reflexivity]. Qed.
+
+Example C01_btc_dest_wraps_outside_wf :
+  let d := mkDep 3 4 1 ex_rid (u256 (2 ^ 64 * BTC_SCALE + 3 * BTC_SCALE) ++ u256 20 ++ repeat x02 20) [] 0 in
+  wf SSub DBtcK d = false /\
+  exists p, relay SSub DBtcK d = Ok p /\ p_data p = DBtc 3 (repeat x02 20).
+Proof. vm_compute. split; [reflexivity | eexists; split; reflexivity]. Qed.
